@@ -30,7 +30,8 @@ def hdf5_writer(filename, data, components=None):
 
     from h5py import File
 
-    f = File(filename, 'w')
+    # track creation order so that components are read back in the order they were written
+    f = File(filename, 'w', track_order=True)
 
     for cid in data.main_components + data.derived_components:
 
